@@ -1,4 +1,4 @@
-"""C07 -- calibration files round-trip: the precision/buffer clause (the only one contracts can reach)."""
+"""C07 -- calibration files round-trip: the writing side (frame of vnacal_save, formatter buffers)."""
 import re
 import vdriver as V
 
@@ -17,6 +17,19 @@ def jobs(tier):
         J.append(V.Job(e[2:] + ".upto%d" % pmax, H, e, [], stubs=["verif_err.c"], defines=["-DPRECISION_MAX=%d" % pmax],
                        unwind=20, shim=False, kind="proof", functions=[e[2:]],
                        bound="precision 1..%d" % pmax, timeout=300, cbmc_flags=["--no-leak"]))
+    for fp_, dp_ in ((3, 5),) if tier == "quick" else ((3, 5), (7, 4), (6, 6), (1, 17)):
+        J.append(V.Job("save_frame.f%d_d%d" % (fp_, dp_), "vnacal/c07_save.c", "h_save_frame", ["vnacal_layout.c"], stubs=["verif_err.c"],
+                       defines=["-DFPREC=%d" % fp_, "-DDPREC=%d" % dp_, "-DVERIF_BUILTIN_MEM"], unwind=26, shim=False, kind="bounded",
+                       canary=False,
+                       functions=["vnacal_save", "add_error_parameters", "add_vector", "add_mapping_entry", "add_integer", "add_double",
+                                  "add_complex"],
+                       bound="table [a, empty, b] of 1x1 T8 calibrations with 2 frequencies; fprecision %d, dprecision %d; libyaml by a "
+                             "recording document model, sprintf by a marker contract" % (fp_, dp_),
+                       timeout=600, cbmc_flags=["--no-leak"]))
+    J.append(V.Job("save_frame.own_name", "vnacal/c07_save.c", "h_save_frame", ["vnacal_layout.c"], stubs=["verif_err.c"],
+                   defines=["-DFPREC=3", "-DDPREC=5", "-DVERIF_BUILTIN_MEM", "-DSAVE_OWN_NAME"], unwind=26, shim=False, kind="bounded",
+                   canary=False, functions=["vnacal_save (file name handling)"],
+                   bound="the same table, saved under vnacal_get_filename(vcp)", timeout=900, cbmc_flags=["--no-leak"]))
     return J
 
 
@@ -25,7 +38,9 @@ ASSUME = [
     "libyaml (yaml_document_add_scalar) by recording stub; everything else about the round trip (libyaml, property trees, legacy versions, bit-exactness) is OUTSIDE contract verification and not decided: a defect there is not detected",
     "the precisions accepted are those of the DFCC contracts on vnacal_set_fprecision/dprecision (C11): every int >= 1",
 ]
-TRUSTED = ["CBMC 6.11", "sprintf length model in harness/vnacal/c07.c"]
+ASSUME.append("save_frame: libyaml's document and emitter functions are a recording model (the document is the tree of the add/append calls and is written as such), "
+              "stdio succeeds, property trees are empty; sprintf writes a marker naming the precision used: WHAT is written WHERE with WHICH precision is decided, not the digits")
+TRUSTED = ["CBMC 6.11", "sprintf length model in harness/vnacal/c07.c", "document model in harness/vnacal/c07_save.c"]
 
 
 def main(tier, only=None):
@@ -34,4 +49,4 @@ def main(tier, only=None):
         J = [j for j in J if re.search(only, j.name)]
     return V.run_property("C07", J, tier, level="proof", assumptions=ASSUME, trusted_base=TRUSTED,
                           min_obligations=20,
-                          technique="CBMC contract harness on the static number formatters of vnacal_save.c with a length-exact sprintf contract")
+                          technique="CBMC contract harnesses: real vnacal_save over a recording libyaml document model; static number formatters with a length-exact sprintf contract")
